@@ -1289,9 +1289,7 @@ class Builder:
                 if vs > 1 and vl > 1:
                     self.stats['forms'].add('pokes-step')
         text = '#POKES' + ';'.join(texts)
-        gd = ''
-        if not texts[-1].startswith('('):
-            gd = self.guard(g)
+        gd = self.guard(g)       # always: a ';' after the last group would continue the list
         return text + gd, (gd if cx.live else None)
 
     def t_pushs(self, node, cx):
@@ -1552,7 +1550,9 @@ class Builder:
             raise OutOfDomain('macro with string parameters in an integer context')
         if ni and not ptext and stext.startswith('('):
             ptext = '()'      # otherwise the string arguments would be read as the integer parameter list
-        open_end = not stext and not ptext.startswith('(')
+        # nothing that could be read as a parameter may follow: more integers after a bare list, an
+        # opening parenthesis when all string arguments are optional and omitted
+        open_end = not stext and (not ptext.startswith('(') or bool(m.snames))
         g = self.guard(pf >> 1) if open_end else ''
         if int_context and open_end:
             g = ' '
